@@ -104,6 +104,12 @@ def build_network(N, topologies, placement, relabel=None):
         net2 = Network()
         net2.G = H
         return net2, jds, rows
+    if relabel == "list-annotations":
+        # the joint degree of every vertex stored as a list (as valid an annotation as a tuple)
+        from gcmpy.names.network_names import NetworkNames as NN
+        for n in net.G.nodes():
+            net.G.nodes[n][NN.JOINT_DEGREE] = list(net.G.nodes[n][NN.JOINT_DEGREE])
+        return net, jds, rows
     if relabel == "reversed-insertion":
         # the same annotated network with vertices and edges inserted in the opposite order and every edge given
         # in the opposite orientation (a different, equally valid, networkx representation)
